@@ -130,7 +130,14 @@ def impl(case):
     for name, arr in (('a', c), ('b', c + s)):
         traj = synth.make_traj(m, ['Li'] * arr.shape[1], arr, rot=rot)
         pos, disp, cum, dist, pos2 = _obs(traj)
-        out[name] = {'pos': (pos * DEN).transpose(1, 2, 0).tolist(), 'disp': (disp * DEN).transpose(1, 2, 0).tolist(),
+        # calls that derive other objects (drift-corrected copy, centre of mass, selections, slices, MSD) must leave every observable of this one unchanged
+        nfr = arr.shape[0]
+        traj.apply_drift_correction(), traj.center_of_mass(), traj.filter('Li'), traj.mean_squared_displacement(), traj[1:], traj[::2]
+        if nfr >= 3:
+            traj.split(2)
+        pos3, disp3, cum3, dist3, _ = _obs(traj)
+        same3 = bool(np.array_equal(pos, pos3) and np.array_equal(disp, disp3) and np.array_equal(cum, cum3) and np.allclose(dist, dist3, rtol=1e-12, atol=1e-12))
+        out[name] = {'after_derived_same': same3, 'pos': (pos * DEN).transpose(1, 2, 0).tolist(), 'disp': (disp * DEN).transpose(1, 2, 0).tolist(),
                      'cum': (cum * DEN).transpose(1, 2, 0).tolist(), 'dist': dist.tolist(),
                      'pos2_same': bool(np.array_equal(pos, pos2))}
     return out
@@ -185,6 +192,9 @@ def oracle(case, out):
             fs.append(('displacements/cumulative', 'cumulative_displacements is not the running sum of displacements'))
         if not o['pos2_same']:
             fs.append(('positions/second-read-differs', 'positions changed after reading displacements / distances'))
+        if not o.get('after_derived_same', True):
+            fs.append(('positions/changed-by-derived-call', 'positions / displacements / cumulative displacements / distances of a trajectory changed after '
+                       'apply_drift_correction(), center_of_mass(), filter(), mean_squared_displacement(), slicing or split() were called on it'))
     # shift invariance away from ties
     d = np.diff(c, axis=2)
     tie_atoms = (np.mod(2 * d, 2 * DEN) == DEN).any(axis=(1, 2))
